@@ -118,6 +118,43 @@ fn garbage(rng: &mut Rng, kind: u64, len: usize, donor: &[u8]) -> Vec<u8> {
     }
 }
 
+
+/// Blocks at and beyond the largest frame a header can announce (65535 samples per channel): one
+/// `write` call must either be refused leaving the sink untouched, or emit frames that decode from
+/// their own headers to exactly the samples handed in.  Returns how many calls were tried.
+fn block_size_limits(out: &mut Out, rng: &mut Rng) -> (usize, usize) {
+    let (mut tried, mut refused) = (0usize, 0usize);
+    for &(len, ch) in &[(65535usize, 1u8), (65536, 1), (65537, 1), (65551, 2), (70000, 1), (131072 + 19, 1), (65535, 2)] {
+        let bps = *rng.pick(&[8u32, 16]);
+        let rate = *rng.pick(&[8000u32, 44100, 96000]);
+        let amp = 1i32 << (bps - 2);
+        let pcm: Vec<i32> = (0..len * ch as usize).map(|i| ((i as i32 * 37) % (2 * amp)) - amp).collect();
+        let mut cur = Cursor::new(Vec::new());
+        clear_panic_loc();
+        let r = catch(|| { let mut sw = FlacStreamWriter::new(&mut cur, Options::fast()); sw.write(rate, ch, bps, &pcm) });
+        tried += 1;
+        let input: Vec<(&str, String)> = vec![("rate", rate.to_string()), ("ch", ch.to_string()), ("bps", bps.to_string()), ("samples_per_channel", len.to_string()), ("pcm_rule", esc("((i*37) mod 2A) - A, A = 2^(bps-2), interleaved"))];
+        let bytes = cur.into_inner();
+        match r {
+            Err(p) => { out.viol_panic("stream-write", &p, &format!("FlacStreamWriter::write of {} samples per channel panics: {}", len, p), &input); }
+            Ok(Err(e)) => {
+                refused += 1;
+                if len <= 65535 { out.viol(&format!("stream-write-err:{}", err_class(&e)), &format!("FlacStreamWriter::write of {} samples per channel (a legal block size) fails: {}", len, err_class(&e)), &input); }
+                if !bytes.is_empty() { out.viol("refused-block-left-bytes", &format!("write() of {} samples per channel returned {} but left {} bytes in the sink", len, err_class(&e), bytes.len()), &input); }
+            }
+            Ok(Ok(())) => {
+                let (got, end) = run_subset(&bytes[..], 16);
+                let all: Vec<i32> = if ch == 1 { got.iter().flat_map(|f| f.samples.iter().copied()).collect() } else { got.iter().flat_map(|f| f.samples.iter().copied()).collect() };
+                let params_ok = got.iter().all(|f| f.rate == rate && f.ch == ch && f.bps == bps);
+                if matches!(end, End::Panic(_)) || end != End::Err("Io:UnexpectedEof".into()) || all != pcm || !params_ok {
+                    out.viol("oversize-block-not-decodable", &format!("write() of {} samples per channel returned Ok, but the {} emitted bytes read back as {} frame(s) with {} samples then {} (expected exactly the {} samples written)", len, bytes.len(), got.len(), all.len(), end.tag(), pcm.len()), &input);
+                }
+            }
+        }
+    }
+    (tried, refused)
+}
+
 fn main() {
     hook_panics();
     let seed = env_seed();
@@ -274,6 +311,7 @@ fn main() {
         }
     }
     let _ = has_sync;
+    let (limit_tried, limit_refused) = block_size_limits(&mut out, &mut rng);
     let m = |m: &BTreeMap<String, usize>| format!("{{{}}}", m.iter().map(|(k, v)| format!("{}:{}", esc(k), v)).collect::<Vec<_>>().join(","));
     println!(
         "{}",
@@ -281,7 +319,7 @@ fn main() {
             ("t", esc("stat")), ("profile", esc(profile())), ("streams", n_streams.to_string()), ("frames", n_frames.to_string()), ("frames_alone", n_alone.to_string()),
             ("clean_concatenations", n_clean.to_string()), ("segmentations", n_seg.to_string()), ("garbage_streams", n_garbage.to_string()),
             ("garbage_kinds", format!("{{{}}}", garbage_kinds.iter().map(|(k, v)| format!("\"{}\":{}", k, v)).collect::<Vec<_>>().join(","))),
-            ("streams_losing_frames_to_synclike_garbage", lost_with_synclike.to_string()), ("garbage_streams_containing_a_valid_frame", garbage_with_valid_frame.to_string()), ("frame_params", m(&params_seen)), ("cases_emitted", out.cases.to_string()), ("garbage_cases_emitted", garbage_cases.to_string()),
+            ("streams_losing_frames_to_synclike_garbage", lost_with_synclike.to_string()), ("garbage_streams_containing_a_valid_frame", garbage_with_valid_frame.to_string()), ("frame_params", m(&params_seen)), ("cases_emitted", out.cases.to_string()), ("garbage_cases_emitted", garbage_cases.to_string()), ("block_size_limit_writes", limit_tried.to_string()), ("block_size_limit_refused", limit_refused.to_string()),
             ("viols", out.viols.to_string()), ("viol_keys", out.counts()),
         ])
     );
